@@ -68,13 +68,27 @@ func Run(t *testing.T, timeout time.Duration, body func(s *S)) Result {
 		})
 		res.Status = "ok"
 	}()
+	// A scenario takes milliseconds.  One that is not done after `timeout` of real time is a hang
+	// if a library goroutine of this process is parked on a mutex (the bubble can then never become
+	// idle); otherwise the machine is just slow and it gets a much longer grace period.
+	dump := func() string {
+		buf := make([]byte, 4<<20)
+		n := runtime.Stack(buf, true)
+		return string(buf[:n])
+	}
 	select {
 	case <-done:
 	case <-time.After(timeout):
-		buf := make([]byte, 1<<20)
-		n := runtime.Stack(buf, true)
-		res.Status = "hang"
-		res.Detail = FilterStacks(string(buf[:n]))
+		d := FilterStacks(dump())
+		if strings.Contains(d, "sync.Mutex.Lock") || strings.Contains(d, "sync.RWMutex") {
+			res.Status, res.Detail = "hang", d
+			break
+		}
+		select {
+		case <-done:
+		case <-time.After(12 * timeout):
+			res.Status, res.Detail = "hang", FilterStacks(dump())
+		}
 	}
 	smu.Lock()
 	if s != nil {
